@@ -69,7 +69,7 @@ def _place(rng, mol, species, n_sites, required=()):
     budget = {}
     for i, atom in enumerate(mol.atoms):
         if mol.kind == "atomistic":
-            budget[i] = 0 if atom["arom"] else mol.free(i)
+            budget[i] = 0 if (atom["arom"] or atom["el"] == "H") else mol.free(i)
             if atom["charge"]:
                 budget[i] = 0
             if mol.is_sp(i) and rng.random() < 0.7:
@@ -97,6 +97,8 @@ def gen_config(rng, all_atom=None, tier="quick"):
     all_atom = (rng.random() < 0.65) if all_atom is None else all_atom
     wild = rng.random() < 0.15
     weighted = rng.random() < 0.35
+    hyper = rng.random() < 0.35
+    explicit_h = rng.random() < 0.25
     species = _species(rng)
     n_frag = rng.choice([1, 2, 2, 3, 3, 4])
     names = rng.sample(NAMES, n_frag)
@@ -107,10 +109,11 @@ def gen_config(rng, all_atom=None, tier="quick"):
     for idx, name in enumerate(names):
         for _ in range(8):
             if all_atom:
-                mol = gen_mol.gen_atomistic(rng, rng.randint(1, 7), rich=rng.random() < 0.35)
+                mol = gen_mol.gen_atomistic(rng, rng.randint(1, 7), rich=rng.random() < 0.35,
+                                            hyper=("S", "P", "N") if hyper else (), explicit_h=explicit_h)
                 if weighted:
                     for atom in mol.atoms:
-                        if not atom["arom"] and rng.random() < 0.4:
+                        if not atom["arom"] and atom["el"] != "H" and rng.random() < 0.4:
                             atom["w"] = rng.choice([0.5, 2.0, 0, 0.25, 3.0])
                             atom["wpos"] = rng.random() < 0.7
             else:
@@ -136,7 +139,7 @@ def gen_config(rng, all_atom=None, tier="quick"):
             "bonds": sorted([min(appearance.index(i), appearance.index(j)), max(appearance.index(i), appearance.index(j)), o]
                             for (i, j), o in mol.bonds.items()),
             "descs": {str(pos): ["%s%s%d" % d for d in descs[a]] for pos, a in enumerate(appearance) if descs.get(a)},
-            "hfill": [mol.free(a) if all_atom else 0 for a in appearance],
+            "hfill": [mol.hfill(a) if all_atom else 0 for a in appearance],
         }
         if all_atom:
             template["mass"] = sum(MASS[mol.atoms[a]["el"]] for a in appearance) + MASS["H"] * sum(template["hfill"])
@@ -196,6 +199,7 @@ def gen_config(rng, all_atom=None, tier="quick"):
     start = rng.choice([f["name"] for f in frags]) if rng.random() < 0.4 else None
     return {
         "all_atom": all_atom, "wild": wild,
+        "explicit_h": any(a.get("el") == "H" for f in frags for a in f["atoms"]),
         "string": "{" + ",".join("#%s=%s" % (f["name"], f["text"]) for f in frags) + "}",
         "templates": frags,
         "polymer_reactivities": poly, "fragment_reactivities": frag_react, "terminal_bonds": terminal,
